@@ -31,10 +31,33 @@ impl Consumer for Collect {
     }
 }
 
+/// A copy of `bytes` that starts at an address congruent to k mod 4, with k = 0..3 derived from the
+/// contents (so a case is reproducible): the byte-slice entry points take any `&[u8]` - a slice of
+/// a larger buffer, a memory-mapped file at an odd offset - and the statements know no alignment.
+pub struct Shifted {
+    backing: Vec<u8>,
+    off: usize,
+    len: usize,
+}
+impl Shifted {
+    pub fn new(bytes: &[u8]) -> Shifted {
+        let k = (crate::engine::hash64(bytes) % 4) as usize;
+        let mut backing = vec![0xa5u8; bytes.len() + 8];
+        let base = backing.as_ptr() as usize;
+        let off = ((4 - base % 4) % 4) + k;
+        backing[off..off + bytes.len()].copy_from_slice(bytes);
+        Shifted { backing, off, len: bytes.len() }
+    }
+    pub fn bytes(&self) -> &[u8] {
+        &self.backing[self.off..self.off + self.len]
+    }
+}
+
 pub fn parse_bytes_collect(bytes: &[u8]) -> Result<(Collect, Result<(), ParseState>), Fail> {
+    let sh = Shifted::new(bytes);
     no_panic("parse_bytes", || {
         let mut c = Collect::default();
-        let r = binary::parse_bytes(bytes, &mut c);
+        let r = binary::parse_bytes(sh.bytes(), &mut c);
         (c, r)
     })
 }
@@ -48,7 +71,8 @@ pub fn parse_words_collect(words: &[u32]) -> Result<(Collect, Result<(), ParseSt
 }
 
 pub fn load_bytes(bytes: &[u8]) -> Result<Result<dr::Module, ParseState>, Fail> {
-    no_panic("load_bytes", || dr::load_bytes(bytes))
+    let sh = Shifted::new(bytes);
+    no_panic("load_bytes", || dr::load_bytes(sh.bytes()))
 }
 
 pub fn load_words(words: &[u32]) -> Result<Result<dr::Module, ParseState>, Fail> {
